@@ -2,6 +2,7 @@ package props
 
 import (
 	"fmt"
+	"strconv"
 	"strings"
 	"sync"
 
@@ -547,6 +548,31 @@ func c03CheckOne(c *core.Ctx, idx int, pattern string, enumerated bool) {
 			}
 		})
 		c.Event("rules_asked_about_host_names_first", 1)
+	}
+	if c.Rng.Intn(6) == 0 {
+		// Addresses longer than the 4 KiB that matching looks at: a witness,
+		// padding, and the witness again beyond the cap.  What the rule says
+		// about such an address is what the mask language says about its first
+		// 4096 bytes.
+		for _, u := range witnesses[:min(len(witnesses), 3)] {
+			if len(u) == 0 || len(u) > 300 || strings.ContainsAny(u, " \n") {
+				continue
+			}
+			long := u + "?" + strings.Repeat("a", 4090-len(u)+c.Rng.Intn(12)) + u
+			req := rules.NewRequest(long, "http://example.org/", rules.TypeScript)
+			var got bool
+			w2 := w
+			w2.String = long[:60] + "...(" + strconv.Itoa(len(long)) + " bytes)"
+			if !c.Guard("NetworkRule.Match", nil, w2, func() { got = r.Match(req) }) {
+				want := m.Match(long[:min(len(long), 4096)])
+				nStrings++
+				c.Event("addresses_longer_than_the_cap", 1)
+				if got != want {
+					w2.Got, w2.Reference = got, want
+					c.Violation("match-differs-from-mask-language:long-address", nil, w2, "rule %q Match(%d-byte address starting with %q and ending with %q)=%v, the mask language says %v about its first 4096 bytes", text, len(long), u, u, got, want)
+				}
+			}
+		}
 	}
 	for _, u := range witnesses {
 		if strings.ContainsAny(u, " \n") {
